@@ -2,7 +2,8 @@ from . import standard, skel_common
 
 
 def nontrivial(case):
-    return len(case.get("input", {}).get("column", [])) >= 2
+    inp = case.get("input", {})
+    return len(inp.get("column", [])) >= 2 or len(inp.get("route_history", [])) >= 4
 
 
 def direct_known_key(d):
@@ -17,8 +18,8 @@ def direct_known_key(d):
 
 SPEC = skel_common.spec(
     "C20", "C20.v",
-    "cases = every traced solve run with verbose on into the buffer target: the iteration column parsed from the printed table must equal the status-line events predicted by the Coq loop model from the recorded kernel answers, the footer status must equal the model's final status and the returned one (c_column); direct records: last status line vs returned solution (printed precision), configuration header vs dimensions recomputed from the user's input (n, m after presolve, nnz of triu(P), nnz(A) after row removal, cone count, presolve count), bytes to stream and file identical to the buffer's (solve-time line masked), verbose off writes nothing to buffer / stream / file. Non-trivial = table with at least two lines.",
-    "Theorem C20_iteration_column (loop model, all kernel answers): the numbers shown by the status lines start at 0, never decrease, never jump by more than one and end at the reported iteration count (the extra line after a failed step included); C20_post_spec: post-processing only turns error / limit statuses into Almost* ones.",
+    "cases = every traced solve run with verbose on into the buffer target: the iteration column parsed from the printed table must equal the status-line events predicted by the Coq loop model from the recorded kernel answers, the footer status must equal the model's final status and the returned one (c_column); direct records: last status line vs returned solution (printed precision), configuration header vs dimensions recomputed from the user's input (n, m after presolve, nnz of triu(P), nnz(A) after row removal, cone count, presolve count), bytes to stream and file identical to the buffer's (solve-time line masked), verbose off writes nothing to buffer / stream / file; routing histories (250 random sequences of print_to_{stdout,file,stream,sink,buffer}, raw writes through the print target's Write implementation, get_print_buffer and info clones on a live solver; 3 files opened in append mode and 3 shared streams) whose operation outputs, final target kind and final file / stream contents must equal those of the Coq state machine Solver/Route.v (c_route). Non-trivial = table with at least two lines.",
+    "Theorem C20_iteration_column (loop model, all kernel answers): the numbers shown by the status lines start at 0, never decrease, never jump by more than one and end at the reported iteration count (the extra line after a failed step included); C20_post_spec: post-processing only turns error / limit statuses into Almost* ones. Routing (model of src/io/mod.rs): C20_route_refines - for every history each sink holds exactly the writes issued while it was the current target, in order; C20_same_bytes_all_targets - the same writes deliver identical bytes to a buffer, a stream and a file; C20_write_frame, C20_sink_silent, C20_cloned_stream_silent, C20_get_buffer_spec.",
     nontrivial,
     {"direct_known_key": direct_known_key})
 
